@@ -328,7 +328,9 @@ class MinGenSet():
         self._solution = None
 
         # Solve for increasing numbers of elements in the generating set
-        for k in range(self.lowerbound, max(self.lowerbound+1, len(self.initial_numbers)+2)):
+        # A partition constraint with t parts can force up to t - 1 further elements into the generating set
+        extra_for_partitions = sum(len(constraint) - 1 for constraint in (self.partition_constraints or []))
+        for k in range(self.lowerbound, max(self.lowerbound+1, len(self.initial_numbers)+2+extra_for_partitions)):
             self._create_solver(k=k)
             self.solver.optimize()
 
